@@ -26,6 +26,16 @@ def _map_sub_events(args):
     for n, (blocks, st) in enumerate(locs):
         kind = (n + kind_mode) % 2
         l = E.make_loc(blocks, st, _parent(kind, G), force_compound=(n % 3 == 0))
+        if n % 4 in (1, 2):
+            # the maps must not depend on what was asked before: warm every lazily computed member first
+            for warm in (lambda: l.extract_sequence(), lambda: l.blocks, lambda: list(l.scan_blocks()),
+                         lambda: l.gaps_location(), lambda: l.gap_list(), lambda: l.optimize_blocks(),
+                         lambda: l.is_overlapping, lambda: str(l), lambda: hash(l), lambda: l.reverse(),
+                         lambda: l.merge_overlapping(), lambda: l.parent_to_relative_pos(blocks[0][0])):
+                try:
+                    warm()
+                except Exception:
+                    pass
         ln = len(l)
         r2p = [E.outcome(lambda i=i: l.relative_to_parent_pos(i)) for i in range(-1, ln + 1)]
         p2r = [E.outcome(lambda p=p: l.parent_to_relative_pos(p)) for p in range(-1, G + 1)]
@@ -55,6 +65,13 @@ def _rel_events(args):
             par = _parent(kind, G)
             outer = E.make_loc(ob, ost, par)
             q = E.make_loc(qb, qst, par)
+            if n % 3 == 1:
+                for warm in (lambda: outer.extract_sequence(), lambda: q.extract_sequence(), lambda: outer.blocks,
+                             lambda: list(q.scan_blocks()), lambda: outer.gaps_location()):
+                    try:
+                        warm()
+                    except Exception:
+                        pass
             o1 = E.loc_outcome(lambda: outer.parent_to_relative_location(q, optimize_blocks=True))
             o2 = E.loc_outcome(lambda: q.location_relative_to(outer, optimize_blocks=False))
             ev.append(["rel", [ob, ost], [qb, qst], kind, o1, o2])
